@@ -104,7 +104,7 @@ VARIANTS = [
          [(UT, '    "branch",\n', "")],
          ("C01.12", "keyword:branch"), ("C01",)),
     fire("w3-macro-call-nesting-unchecked",
-         [(CB, '        if self.is_in_block_context(\n            context, ["subcircuit", "parallel"]\n        ) and contains_subcircuit(gate):\n            # The call stands for the macro\'s body\n            raise JaqalError("Nesting subcircuit in subcircuit or parallel block")\n', "")],
+         [(CB, '        if self.is_in_block_context(\n            context, ["subcircuit", "parallel"]\n        ) and contains_subcircuit(gate, self.subcircuit_memo):\n            # The call stands for the macro\'s body\n            raise JaqalError("Nesting subcircuit in subcircuit or parallel block")\n', "")],
          ("C01.13", "Builder.build_gate:nesting-check"), ("C01",)),
     # ---- C20
     fire("w3-register-eq-recursive",
